@@ -118,6 +118,7 @@ def item_model(it):
 # ------------------------------------------------------------------------------------------------
 # ops: ("send", text) ("tx", [items]) ("rx", [items]) ("rxend",) ("rxclose",) ("rxreset",) ("run",)
 #      ("connect", cut) with cut in (None, 2, 4, 6) = number of prefix runs executed   ("dump",)
+#      ("onconnect", [texts]) what the application's connection handler sends on CONNECT (<= 3 short stanzas)
 # symbolic ops of the honest stream are resolved to these before a line is produced.
 # ------------------------------------------------------------------------------------------------
 PREFIX_CMDS = ["connect client", "run", "rx " + hx(HDR), "run", "rx " + hx(FEAT1), "run", "run", "rx " + hx(SUCC), "run", "run",
@@ -163,6 +164,8 @@ def op_sim(op, serial):
         return prefix_cmds(op[1])
     if k == "dump":
         return ["dumpq"]
+    if k == "onconnect":
+        return ["onconnect " + (",".join("send:" + hx(t) for t in op[1]) if op[1] else "-")]
     raise ValueError(op)
 
 
@@ -186,6 +189,8 @@ def op_model(op):
         return ["C"]
     if k == "dump":
         return ["D"]
+    if k == "onconnect":
+        return ["O " + (",".join(hx(t) for t in op[1]) if op[1] else "-")]
     raise ValueError(op)
 
 
@@ -525,7 +530,7 @@ class ServerSim:
                     self.expect.pop(0)
                     v.bump("retransmitted")
                 else:
-                    v.c04.append(("resend-order", "%s is due for retransmission first, the client wrote %s" % (short(self.expect[0]), short(el))))
+                    v.c04.append(("resend-order", "%s is due for retransmission before anything new, the client wrote %s first" % (short(self.expect[0]), short(el))))
                     if el in self.expect:
                         self.expect.remove(el)
             if el in s.recv:
@@ -783,6 +788,15 @@ class Gen:
         self.sid += 1
         return "SM%d" % self.sid
 
+    def onconnect(self, p=0.45):
+        """what the application's connection handler submits on the next CONNECT (fresh texts every time)"""
+        texts = []
+        if self.rng.random() < p:
+            for _ in range(self.rng.choice([1, 1, 2, 3])):
+                self.cn = getattr(self, "cn", 0) + 1
+                texts.append('<message id="c%d" to="p@e"/>' % self.cn)
+        return ("onconnect", texts)
+
     def tx(self, allow_err=False):
         items = [self.rng.choice(SCHED + (["err"] if allow_err and self.rng.random() < 0.08 else [])) for _ in range(self.rng.randrange(1, 4))]
         return ("tx", items)
@@ -791,7 +805,7 @@ class Gen:
 def gen_honest(rng, max_reconnects=4):
     """Scenario with a well-behaved server; ("sym", ...) ops are resolved against the implementation's own output."""
     g = Gen(rng)
-    ops = list(NEG_FIRST)
+    ops = [g.onconnect()] + list(NEG_FIRST)
     ops += [("rx", [("en", rng.random() < 0.9, g.new_id())]), ("run",)]
     nrec = rng.randrange(1, max_reconnects + 1)
     for phase in range(nrec + 1):
@@ -846,7 +860,7 @@ def gen_honest(rng, max_reconnects=4):
 
 def reconnect_ops(rng, g, modes=None):
     sm = rng.random() < 0.93
-    ops = [("connect", None), ("rx", [("feat", sm)]), ("run",), ("run",)]
+    ops = [g.onconnect(), ("connect", None), ("rx", [("feat", sm)]), ("run",), ("run",)]
     mode = rng.choice(modes or ["resumed", "resumed", "resumed", "failed_h", "failed", "fni", "failed_o"])
     # a connection loss right after the answer: the window of the known class
     for i in range(3):
@@ -906,7 +920,7 @@ def resolve_sym(op, sim, rng_unused=None):
         out = []
         if sim.alive:
             out += [("rxreset",), ("run",)]
-        out += [("connect", None), ("rx", [("feat", True)]), ("run",), ("run",)]
+        out += [("onconnect", []), ("connect", None), ("rx", [("feat", True)]), ("run",), ("run",)]
         for i in range(3):
             out += [("sym", "reply", "resumed", 0, True, "%s-%d" % (op[2], i)), ("run",), ("run",)]
         return out
@@ -985,6 +999,8 @@ def gen_adversarial(rng, nops=40):
     connected = True
     for _ in range(nops):
         r = rng.random()
+        if rng.random() < 0.06:
+            ops.append(g.onconnect(0.8))
         if not connected:
             if r < 0.7:
                 cut = rng.choice([None, None, None, None, 2, 4, 6])
@@ -1029,6 +1045,8 @@ def scenario_key(ops):
             out.append("tx:" + ",".join(op[1]))
         elif op[0] == "send":
             out.append("s%d" % len(op[1]))
+        elif op[0] == "onconnect":
+            out.append("oc%d" % len(op[1]))
         else:
             out.append(op[0] + (str(op[1]) if len(op) > 1 else ""))
     return " ".join(out)
@@ -1051,8 +1069,8 @@ def ops_from_text(t):
     for op in raw:
         if op[0] == "rx":
             ops.append(("rx", [tuple(it) for it in op[1]]))
-        elif op[0] == "tx":
-            ops.append(("tx", list(op[1])))
+        elif op[0] in ("tx", "onconnect"):
+            ops.append((op[0], list(op[1])))
         else:
             ops.append(tuple(op))
     return ops
@@ -1126,8 +1144,9 @@ def run_check(chk, pid):
     chk.rule = ("simworld scenarios: fixed negotiation to an SM session, then (a) 'honest' stream: random user sends, partial-write "
                 "schedules, inbound stanzas / other elements / <r/>, acknowledgements and resume outcomes computed by an independent "
                 "XEP-0198 server simulator from what the client really wrote (lock-step resolution), 1-4 reconnects with "
-                "resumed / failed(h) / failed / feature-not-implemented / new session / no SM offered / loss during negotiation, final "
-                "drain; (b) 'adversarial' stream: every element kind with any h (below/at/above the queue head, > 2^32, unparsable, "
+                "resumed / failed(h) / failed / feature-not-implemented / new session / no SM offered / loss during negotiation, the "
+                "application's connection handler submitting 0-3 stanzas on CONNECT (first connect, resumed and re-enabled sessions "
+                "with retransmissions pending), final drain; (b) 'adversarial' stream: every element kind with any h (below/at/above the queue head, > 2^32, unparsable, "
                 "missing) at any time, write errors, stream end, losses everywhere; (c) corpus. Every scenario: implementation trace "
                 "(wire bytes per connection, every SM-callback blob, dumpq, connect/disconnect events) == model trace; streams (a),(c): "
                 "server simulator's verdict. distinct & non-trivial = distinct op/answer sequence containing at least one ack, resume "
@@ -1198,7 +1217,14 @@ def run_check(chk, pid):
             seen_fail.add((cls,))
             case = text
             if len([f for f in chk.failures if f.get("class") == cls]) == 0 and cls != "lost-after-requeue":
-                case = ops_to_text(shrink(pid, ops, drained, cls, exe))
+                small = shrink(pid, ops, drained, cls, exe)
+                try:                      # describe the minimised scenario, not the one it was found in
+                    out = vlib.run_lines(exe, [sim_line(small)])[0]
+                    again = [w for c, w in evaluate(pid, small, out, drained)[0] if c == cls]
+                    if again:
+                        case, what = ops_to_text(small), again[0]
+                except Exception:
+                    pass
             chk.fail(case, "%s: %s" % (cls, what), stream=stream, extra={"class": cls})
         if idx % 211 == 0:
             chk.sample({"stream": stream, "ops": text[:600], "verdict": "ok" if not fails else fails[0][1][:200]})
